@@ -421,8 +421,21 @@ func run(p *propCfg, tier string, seed int64, replay string, determinism bool, s
 // a fresh process: same class and same canonical log hash, no tape divergence.
 func confirmReplay(p *propCfg, bin string, v *violationReport, scratch string, w int) bool {
 	outFile := filepath.Join(scratch, fmt.Sprintf("confirm.%d.%d.json", w, v.Seed))
-	_, _ = runWorker(bin, []string{"SIM_MODE=replay", "SIM_PROP=" + p.ID, "SIM_REPLAY=" + v.Replay, "SIM_OUT=" + outFile}, time.Duration(p.WatchdogSlackS)*time.Second)
-	b, err := os.ReadFile(outFile)
+	// the confirming run is one process replaying one tape; on a loaded machine it can take many times
+	// what it takes on an idle one, and a replay cut short by the watchdog must not pass for "did not
+	// reproduce": generous limit, and a second attempt when the first left no result
+	limit := 4 * time.Duration(p.WatchdogSlackS) * time.Second
+	if limit < 10*time.Minute {
+		limit = 10 * time.Minute
+	}
+	var b []byte
+	var err error
+	for attempt := 0; attempt < 2; attempt++ {
+		_, _ = runWorker(bin, []string{"SIM_MODE=replay", "SIM_PROP=" + p.ID, "SIM_REPLAY=" + v.Replay, "SIM_OUT=" + outFile}, limit)
+		if b, err = os.ReadFile(outFile); err == nil {
+			break
+		}
+	}
 	if err != nil {
 		return false
 	}
